@@ -23,12 +23,25 @@ block / case index, so a line replays alone):
      SettingsAfterFormat, plus With on the first (WITH inheritance into the second).
  E3  all `I` cases with 1..3 members, each a select or a parenthesised select (q/u), EXCEPT or
      INTERSECT, With present/absent on the first, Columns of every member in {1,2}.
- R   <count> random `S`, <count>/2 random `U` and <count>/4 random `I` cases over all 25 fields
+ E4  16384 `N` cases (union nested in INSERT, unionTail{noFormat: true}; with an INSERT-level
+     WITH the inherited-WITH union printer): ALL 2^14 combinations of INSERT-level WITH present,
+     SettingsBeforeFormat, SettingsAfterFormat, len(Settings) in {0,1}, for each of two members
+     IntoOutfile, Format, Settings, SettingsAfterFormat, With on the first member, second
+     member a select or a parenthesised select.
+ E5  8192 `X` cases (union nested in EXPLAIN; noSettings / noFormatOf / noSettingsOf computed
+     from the first SelectQuery member): ALL 2^13 combinations of the three union flags, the
+     four fields above for each of two members, With on the first, FIRST member a select or a
+     parenthesised select (then the first SelectQuery member is the second one).
+ E6  8192 `C` cases (union nested in CREATE VIEW; Format on the CreateQuery or not): ALL 2^13
+     combinations of CreateQuery.Format set, the three union flags, the four fields for each of
+     two members, With on the first.
+ R   <count> random `S`, <count>/2 random `U`, <count>/4 random `I` and <count>/4 random `N`,
+     `X`, `C` cases each over all 25 fields
      (each optional field present with probability 1/2, list lengths 0..3, From in
      {nil, 1..3 tables, non-nil without tables}, Columns 0 with probability 1/16), then further random
      `S` cases until every combination of presence/absence of every 3 of the 25 fields has
      occurred (3-wise coverage; 18400 triples x 8 patterns).
---no-exhaustive drops E1..E3 (quick tier).
+--no-exhaustive drops E1..E6 (quick tier).
 """
 import sys
 from itertools import combinations
@@ -149,6 +162,61 @@ def emit_e3(seed, out):
                         out.append("I\t%d\t%s" % (e, ";".join(items)))
 
 
+def two_members(mask, shift, rng):
+    """two select specs from 8 bits of mask at shift: outfile, format, settings, saf each"""
+    ds = []
+    for k in range(2):
+        bits = (mask >> (shift + 4 * k)) & 15
+        d = [0] * NF
+        d[3] = 1 + rng.below(2)
+        d[23] = bits & 1
+        d[24] = (bits >> 1) & 1
+        d[21] = (bits >> 2) & 1
+        d[22] = (bits >> 3) & 1
+        ds.append(d)
+    return ds
+
+
+def emit_e4(seed, out):
+    for mask in range(1 << 14):
+        rng = Rng(seed, 7, mask)
+        w, b, a, n = mask & 1, (mask >> 1) & 1, (mask >> 2) & 1, (mask >> 3) & 1
+        ds = two_members(mask, 4, rng)
+        ds[0][0] = (mask >> 12) & 1
+        k2 = "u" if (mask >> 13) & 1 else "q"
+        out.append("N\t%d%d%d%d\tq%s;%s%s" % (w * (1 + rng.below(2)), b, a, n, fmt(ds[0]), k2, fmt(ds[1])))
+
+
+def emit_e5(seed, out):
+    for mask in range(1 << 13):
+        rng = Rng(seed, 8, mask)
+        b, a, n = mask & 1, (mask >> 1) & 1, (mask >> 2) & 1
+        ds = two_members(mask, 3, rng)
+        ds[0][0] = (mask >> 11) & 1
+        k1 = "u" if (mask >> 12) & 1 else "q"
+        out.append("X\t%d%d%d\t%s%s;q%s" % (b, a, n, k1, fmt(ds[0]), fmt(ds[1])))
+
+
+def emit_e6(seed, out):
+    for mask in range(1 << 13):
+        rng = Rng(seed, 9, mask)
+        f, b, a, n = mask & 1, (mask >> 1) & 1, (mask >> 2) & 1, (mask >> 3) & 1
+        ds = two_members(mask, 4, rng)
+        ds[0][0] = (mask >> 12) & 1
+        out.append("C\t%d%d%d%d\tq%s;q%s" % (f, b, a, n, fmt(ds[0]), fmt(ds[1])))
+
+
+def random_items(rng):
+    n = 1 + rng.below(3)
+    items = []
+    for k in range(n):
+        if rng.below(4) == 0:
+            items.append("u" + fmt(random_select(rng, in_model=True)))
+        else:
+            items.append("q" + fmt(random_select(rng)))
+    return ";".join(items)
+
+
 def emit_random(seed, count, out):
     covered = set()
     triples = list(combinations(range(NF), 3))
@@ -183,6 +251,13 @@ def emit_random(seed, count, out):
             else:
                 items.append("q" + fmt(random_select(rng)))
         out.append("I\t%d\t%s" % (rng.bit(), ";".join(items)))
+    for i in range(count // 4):
+        rng = Rng(seed, 10, i)
+        out.append("N\t%d%d%d%d\t%s" % (rng.below(3), rng.bit(), rng.bit(), rng.below(3), random_items(rng)))
+        rng = Rng(seed, 11, i)
+        out.append("X\t%d%d%d\t%s" % (rng.bit(), rng.bit(), rng.below(3), random_items(rng)))
+        rng = Rng(seed, 12, i)
+        out.append("C\t%d%d%d%d\t%s" % (rng.bit(), rng.bit(), rng.bit(), rng.below(3), random_items(rng)))
     i = 0
     while len(covered) < total:
         d = random_select(Rng(seed, 6, i))
@@ -209,6 +284,9 @@ def main():
         emit_e1(seed, out)
         emit_e2(seed, out)
         emit_e3(seed, out)
+        emit_e4(seed, out)
+        emit_e5(seed, out)
+        emit_e6(seed, out)
     emit_random(seed, count, out)
     sys.stdout.write("\n".join(out) + "\n")
 
